@@ -39,9 +39,26 @@ def one_dir(run, model, rng, nfiles, sub=False):
         eid = 0x52000000 + rng.randrange(1 << 16)
         d = c04.mini_pel(b"O", [(b"UD", 1, 7, 0x1234, bytes(rng.randrange(256) for _ in range(rng.choice([990, 1100, 4200])))), (b"PS", 1, 0, 0x2000, src)])
         files.append(("late_src_%08X" % eid, dirgen.set_ids(d, eid=eid), dict(kind="pel", eid=eid)))
-    bits = rng.choice([0, 0, 1, 1, rng.randrange(64)])
+    neighbours = nfiles >= 2 and rng.random() < 0.35
+    if neighbours:
+        # severities that share their group (high nibble) and differ in the low one, over two action-flag words: PELs that a
+        # selection option must tell apart although they look alike by group / hidden / serviceable (C08_m: a decision cache keyed
+        # by that triple made the selected set depend on the processing order under -t)
+        hi = rng.choice([0x50, 0x50, 0x50, 0x40, 0x20, 0x10, 0x00, 0x60, 0x70])
+        pool = [hi | x for x in rng.sample(range(16), 3)] + ([0x51, 0x51] if hi == 0x50 else [])
+        acts = rng.sample([0x0000, 0x4000, 0x8000, 0xC000, 0x8800, 0x4800], 2)
+
+        def reclass(d):
+            b = bytearray(d)
+            if len(b) > 68 and b[48:50] == b"UH":
+                b[58] = rng.choice(pool)
+                b[66:68] = rng.choice(acts).to_bytes(2, "big")
+            return bytes(b)
+        files = [(f[0], reclass(f[1]), f[2]) if f[2].get("kind") == "pel" else f for f in files]
+        run.count("severity-neighbours")
+    bits = rng.choice([0, 0, 1, 1, rng.randrange(64)]) if not neighbours else rng.choice([2, 2, 1 << rng.randrange(6), rng.randrange(64)])
     sevs = tuple(sorted(rng.sample([0, 1, 2, 4, 5, 6, 7], rng.randrange(0, 3)))) if rng.random() < 0.4 else ()
-    rev = rng.random() < 0.4
+    rev = rng.random() < (0.6 if neighbours else 0.4)
     ext = rng.choice(["", "", ".pel", ".PEL", ".txt", ".", "pel", "l", ".pel.pel"])
     hexm = rng.random() < 0.15
     run.evaluations += 1
